@@ -8,7 +8,29 @@ import (
 	"go.uber.org/zap"
 )
 
+// watchLoop keeps a follower looking at the leadership key for as long as the
+// election runs. When the watch cannot be established, or its channel is closed,
+// the follower must not become passive for ever (it would never notice a
+// vacancy): it falls back to the periodic existence check alone.
 func (e *kvElection) watchLoop(ctx context.Context) {
+	e.watchOnce(ctx)
+
+	checkTicker := time.NewTicker(500 * time.Millisecond)
+	defer checkTicker.Stop()
+
+	for {
+		select {
+		case <-ctx.Done():
+			return
+		case <-checkTicker.C:
+			if !e.IsLeader() {
+				e.checkKeyAndReelect(ctx)
+			}
+		}
+	}
+}
+
+func (e *kvElection) watchOnce(ctx context.Context) {
 	watcher, err := e.kv.Watch(e.key)
 	if err != nil {
 		log := e.getLogger()
